@@ -1446,7 +1446,10 @@ class Executor:
 
     def st_For(self, node, st):
         itv = self.ev(node.iter, st)
-        it = self.as_coll(itv, st)
+        if isinstance(itv, TupleV) and len(itv.items) <= 4 and not node.orelse:
+            it = Coll("tuple", None, None, items=list(itv.items))  # concrete python sequence: unrolled below
+        else:
+            it = self.as_coll(itv, st)
         if node.orelse:
             raise Unsupported("for/else")
         if it.items is not None and len(it.items) <= 4:
@@ -1558,6 +1561,15 @@ class Executor:
 
     def ex_List(self, node, st):
         items = [self.ev(e, st) for e in node.elts]
+        try:
+            zs = [z3_of(i) for i in items]
+            if len({str(z.sort()) for z in zs}) > 1:
+                raise Unsupported("heterogeneous")
+        except Unsupported:
+            # heterogeneous literal (e.g. [variable, set_of_nodes, set_of_parents]): a fixed-length python sequence
+            t = TupleV(items)
+            t.is_list = True
+            return t
         return self.coll_from_items("list", items)
 
     def ex_Set(self, node, st):
@@ -2288,7 +2300,9 @@ class Executor:
             if n in ("list", "tuple", "set", "frozenset"):
                 if isinstance(v, Coll) and v.kind == n:
                     return True
-                if n == "tuple" and isinstance(v, TupleV):
+                if n == "tuple" and isinstance(v, TupleV) and not getattr(v, "is_list", False):
+                    return True
+                if n == "list" and isinstance(v, TupleV) and getattr(v, "is_list", False):
                     return True
                 if n == "frozenset" and isinstance(v, Scalar) and isinstance(v.z.sort(), z3.ArraySortRef):
                     return True
@@ -2338,7 +2352,12 @@ class Executor:
                 c.nodup_z = z3.And(prev, z3.Not(c.mem[z]))
                 c.nodup = False
                 c.len_z = None
-            c.mem = z3.Store(c.mem, z, True)
+            if not deq(z, z).eq(z == z):
+                y = fresh("y", z.sort())
+                old_mem = c.mem
+                c.mem = z3.Lambda([y], z3.Or(old_mem[y], deq(y, z)))  # structured element: extensional membership
+            else:
+                c.mem = z3.Store(c.mem, z, True)
             c.items = [args[0]] if was_empty else None
             return NONE
         if name in ("update", "extend", "union", "intersection", "difference", "difference_update", "intersection_update",
